@@ -231,9 +231,11 @@ fn assemble_with_command(
 				print_line(report, "")?;
 			}
 
-			print_line(
+			// The bytes as they are: the `binary` format
+			// need not be valid text in any encoding
+			print_bytes_line(
 				report,
-				&String::from_utf8_lossy(&formatted))?;
+				&formatted)?;
 		}
 		else if let Some(ref output_filename) = output_group.output_filename
 		{
@@ -1079,13 +1081,22 @@ fn print_line(
 	text: &str)
 	-> Result<(), ()>
 {
+	print_bytes_line(report, text.as_bytes())
+}
+
+
+fn print_bytes_line(
+	report: &mut diagn::Report,
+	bytes: &[u8])
+	-> Result<(), ()>
+{
 	use std::io::Write;
 
 	let stdout = std::io::stdout();
 	let mut handle = stdout.lock();
 
 	let result = handle
-		.write_all(text.as_bytes())
+		.write_all(bytes)
 		.and_then(|_| handle.write_all(b"\n"))
 		.and_then(|_| handle.flush());
 
